@@ -688,7 +688,9 @@ pub fn run(args: &Args) -> i32 {
     );
     rep.assume("refcodec defines the value of every well-formed input; where the RFCs leave freedom (duplicate settings, Huffman padding strictness, stricter-than-reference rejection) no verdict is drawn");
     rep.assume(&format!("allocation bound checked: peak <= {ALLOC_FACTOR}*len + {ALLOC_SLACK} bytes per call"));
-    let thorough = args.tier == Tier::Thorough;
+    let thorough = args.tier >= Tier::Thorough;
+    // depth 3 is the extended run (about 1.5 h on 16 cores; not mapped to a command-line tier, run with --depth 3)
+    let deep = args.tier >= Tier::Deep;
     let stop = AtomicBool::new(false);
 
     // 0. inputs that can abort the process (huge declared lengths): one subprocess each
@@ -762,9 +764,13 @@ pub fn run(args: &Args) -> i32 {
         } else if len == 3 {
             // quick tier: the 12 typestate paths see all 2-byte strings and all critical strings of length 4
             ALL_DEC.iter().copied().filter(|d| *d != Dec::Typestates).collect()
-        } else {
+        } else if deep {
             // 2^32 inputs: the decoders whose behaviour depends on all four bytes
             vec![Dec::Varint, Dec::Frame, Dec::Header, Dec::Settings, Dec::Qpack, Dec::Datagram, Dec::Capsule]
+        } else {
+            // 2^32 inputs: integer, frame header and stream header logic (the other decoders see all 3-byte strings and
+            // the critical alphabet up to length 5 / 6)
+            vec![Dec::Varint, Dec::Frame, Dec::Header, Dec::Datagram]
         };
         sweep(&rep, args, &Space::AllBytes { len }, &decs, &format!("all-bytes-{len}"), &stop);
     }
@@ -778,8 +784,10 @@ pub fn run(args: &Args) -> i32 {
         } else if !thorough {
             // quick tier, length 5: the decoders with multi-byte integer / length logic
             vec![Dec::Frame, Dec::Qpack, Dec::Capsule]
-        } else {
+        } else if deep {
             vec![Dec::Frame, Dec::Header, Dec::Settings, Dec::Qpack, Dec::Capsule, Dec::Typestates]
+        } else {
+            vec![Dec::Frame, Dec::Qpack, Dec::Capsule]
         };
         sweep(&rep, args, &Space::Alphabet { len, sigma: sigma.clone() }, &decs, &format!("alphabet-{len}"), &stop);
     }
